@@ -31,6 +31,10 @@ ASSUMPTIONS = [
     "placed through grid[k][j][i] must show up in the hex decoded at (i, j, k)",
     "'on the outer surface': distance from the intended curve <= 1e-6 R + 5e-8; core points are >= 0.05 R away from it",
     "WrappedDisk has three tiers: core/shell membership is checked by position, exhaustiveness is not (DESIGN section 5)",
+    "Mesh.delete is user input like the depot: the written file must be the same whether the mesh is written directly, "
+    "after assemble + backport, after assemble + clear, or for the second time (history drawn per case)",
+    "the end cross-section of a swept sketch is the image of the start sketch under the sweep computed by the harness "
+    "(translation / rotation / scaling by Rodrigues); face centres are compared at 1e-6 x sketch size",
     "after a deletion every remaining operation carries the same count on all axes, so the write cannot fail for lack "
     "of chops; a failing write is labelled inconclusive, not judged",
 ]
@@ -52,6 +56,7 @@ def stack_cases(draw, how: str):
     return {
         "how": how, "sketch": sp, "sweep": q, "place": draw(xs.placements()), "counts": counts,
         "pick": [draw(st.integers(0, n1 - 1)), draw(st.integers(0, n2 - 1)), draw(st.integers(0, t - 1))],
+        "history": draw(st.sampled_from(HISTORIES)),
     }
 
 
@@ -180,11 +185,8 @@ def check_stack(case, ctx: Ctx) -> None:
         mesh2 = cb.Mesh()
         mesh2.add(stack2)
         mesh2.delete(stack2.grid[k][j][i])
-        try:
-            dec2 = xs.must_write(mesh2, facts)
-        except Violation:
-            ctx.label("delete-write-inconclusive")
-            dec2 = None
+        history = case.get("history", "write")
+        dec2 = write_after(mesh2, history, dict(facts, history=history), ctx)
         if dec2 is not None:
             left = sorted(decode(dec2.centroid(h)) or (-1, -1, -1) for h in range(len(dec2.hexes)))
             want = sorted(cc for cc in centres if cc != (i, j, k))
@@ -193,8 +195,8 @@ def check_stack(case, ctx: Ctx) -> None:
                 extra = sorted(set(left) - set(want))
                 raise Violation("delete-address", f"mesh.delete(grid[{k}][{j}][{i}]): cells missing from the file "
                                 f"{missing + [(i, j, k)] if (i, j, k) not in left else missing}, unexpected {extra}",
-                                pick=[i, j, k], **facts)
-            ctx.label("delete-checked")
+                                pick=[i, j, k], history=history, **facts)
+            ctx.label("delete-checked", "history:" + history)
     general = xs.is_general(place)
     ctx.nt(general and len({n1, n2, t}) == 3)
     ctx.label("general" if general else "aligned", "sizes-distinct" if len({n1, n2, t}) == 3 else "sizes-repeat",
@@ -236,8 +238,32 @@ def check_partition(name: str, core, shell, everything, touches, facts: dict, ex
                                 **facts)
 
 
-def delete_check(entity, ops: Sequence, victim, facts: dict, ctx: Ctx) -> None:
+HISTORIES = ["write", "assemble-backport-write", "assemble-clear-write", "write-twice"]
+
+
+def write_after(mesh, history: str, facts: dict, ctx: Ctx):
+    """What happens between mesh.delete() and the file that is judged.  A deletion is the user's instruction like the
+    depot itself, so the file must be the same after every history.  -> Decoded, or None (inconclusive: some step of
+    the history raised, which is another property's business)"""
+    try:
+        if history == "assemble-backport-write":
+            mesh.assemble()
+            mesh.backport()
+        elif history == "assemble-clear-write":
+            mesh.assemble()
+            mesh.clear()
+        elif history == "write-twice":
+            xs.must_write(mesh, facts)
+        return xs.must_write(mesh, facts)
+    except Exception:  # noqa: BLE001  (Violation from must_write included)
+        ctx.label("delete-write-inconclusive")
+        return None
+
+
+def delete_check(entity, ops: Sequence, victim, facts: dict, ctx: Ctx, history: str = "write") -> None:
     """every operation gets the same count on all axes; the victim is deleted; the file must hold all other hexes"""
+    cents = {k: np.asarray(op.point_array, float).mean(axis=0) for k, op in enumerate(ops)}
+    size = min(np.linalg.norm(np.asarray(op.point_array)[1] - np.asarray(op.point_array)[0]) for op in ops)
     for op in ops:
         for axis in (0, 1, 2):
             op.unchop(axis)
@@ -245,20 +271,17 @@ def delete_check(entity, ops: Sequence, victim, facts: dict, ctx: Ctx) -> None:
     mesh = cb.Mesh()
     mesh.add(entity)
     mesh.delete(victim)
-    try:
-        dec = xs.must_write(mesh, facts)
-    except Violation:
-        ctx.label("delete-write-inconclusive")
+    facts = dict(facts, history=history)
+    dec = write_after(mesh, history, facts, ctx)
+    if dec is None:
         return
-    cents = {k: np.asarray(op.point_array, float).mean(axis=0) for k, op in enumerate(ops)}
-    size = min(np.linalg.norm(np.asarray(op.point_array)[1] - np.asarray(op.point_array)[0]) for op in ops)
     decode = Decoder(cents, 1e-6 * size + 5e-8)
     left = sorted(-1 if (d := decode(dec.centroid(h))) is None else d for h in range(len(dec.hexes)))
     gone = [k for k, op in enumerate(ops) if op is victim]
     want = sorted(k for k in cents if k not in gone)
     if left != want:
         raise Violation("delete-address", f"deleting operation {gone} left hexes {left}, expected {want}", victim=gone, **facts)
-    ctx.label("delete-checked")
+    ctx.label("delete-checked", "history:" + history)
 
 
 def touch_tests(spec, case):
@@ -283,6 +306,7 @@ def round_cases(draw, cls: str):
     p["place"] = draw(xs.placements())
     p["which"] = draw(st.sampled_from(["core", "shell"]))
     p["m"] = draw(st.sampled_from(list(range(12))))
+    p["history"] = draw(st.sampled_from(HISTORIES))
     return p
 
 
@@ -313,7 +337,7 @@ def check_round(case, ctx: Ctx) -> None:
         raise Violation("shape-grid-address", "grid[0] / grid[-1] are not the inner / outer operations", **facts)
     lst = core if (case["which"] == "core" and len(core)) else shell
     victim = lst[case["m"] % len(lst)]
-    delete_check(shape, ops, victim, facts, ctx)
+    delete_check(shape, ops, victim, facts, ctx, case.get("history", "write"))
     ctx.nt(xs.is_general(case["place"]))
     ctx.label("general" if xs.is_general(case["place"]) else "aligned", "delete:" + ("core" if lst is core else "shell"))
 
@@ -328,6 +352,7 @@ def sketch_cases(draw, kind: str):
         "kind": kind, "sketch": draw(xs.sketch_params(kind)), "place": draw(xs.placements()),
         "sweep": draw(st.sampled_from(["extrude-amount", "revolve", "loft"]).flatmap(xs.sweep_params)),
         "tier": draw(st.sampled_from([1, 0, 2])), "m": draw(st.sampled_from(list(range(12)))),
+        "history": draw(st.sampled_from(HISTORIES)),
     }
 
 
@@ -337,7 +362,7 @@ def check_sketch(case, ctx: Ctx) -> None:
     facts = {"sketch": kind, "spline": sp.get("shape"), "aligned": bool(place.get("aligned"))}
     try:
         sketch, truth = xs.make_sketch(sp, place)
-        shape, _maps, _scales = xs.sweep_shape(sketch, sp, case["sweep"], place)
+        shape, maps, _scales = xs.sweep_shape(sketch, sp, case["sweep"], place)
     except Exception as ex:  # noqa: BLE001
         raise Violation("construction-failed", f"{type(ex).__name__}: {str(ex)[:200]}", **facts) from None
     Minv = np.linalg.inv(xs.frame(place))
@@ -367,8 +392,28 @@ def check_sketch(case, ctx: Ctx) -> None:
         raise Violation("shape-grid-address", f"shape.grid[-1] of a shape on {kind} holds an inner operation", **facts)
     if sorted(ids_of(op for row in sgrid for op in row)) != sorted(ids_of(shape.operations)):
         raise Violation("shape-grid-cover", "shape.grid does not hold every operation exactly once", **facts)
+    # both ends of an addressed operation: it starts on sketch cell [i][j] and ends on the image of that cell under
+    # the sweep (the harness's own map), and the inner / outer rule holds on the end cross-section as well
+    to_start = np.linalg.inv(maps[1])
+
+    def touches_end(points) -> bool:
+        return touches(rm.apply(to_start, np.asarray(points, float)))
+
+    for i, row_ in enumerate(sgrid):
+        for j, op in enumerate(row_):
+            start = np.asarray(grid[i][j].center, float)
+            for name, face, want in (("starts", op.bottom_face, start), ("ends", op.top_face, rm.apply(maps[1], start))):
+                if np.linalg.norm(np.asarray(face.center, float) - want) > 1e-6 * truth.size + 1e-9:
+                    raise Violation("shape-grid-end-face", f"shape.grid[{i}][{j}] on {kind} {name} on a face that is not "
+                                    f"cell [{i}][{j}] of that cross-section", end=name, index=[i, j], **facts)
+    if len(sgrid) > 1 and any(touches_end(op.top_face.point_array) for op in sgrid[0]):
+        raise Violation("shape-grid-address", f"shape.grid[0] of a shape on {kind} reaches the outer surface at its end face",
+                        **facts)
+    if not all(touches_end(op.top_face.point_array) for op in sgrid[-1]):
+        raise Violation("shape-grid-address", f"shape.grid[-1] of a shape on {kind} leaves the outer surface at its end face",
+                        **facts)
     row = sgrid[case["tier"] % len(sgrid)]
-    delete_check(shape, shape.operations, row[case["m"] % len(row)], facts, ctx)
+    delete_check(shape, shape.operations, row[case["m"] % len(row)], facts, ctx, case.get("history", "write"))
     ctx.nt(xs.is_general(place))
     ctx.label("general" if xs.is_general(place) else "aligned", "sweep:" + case["sweep"]["how"],
               f"delete-tier={case['tier'] % len(sgrid)}")
